@@ -39,8 +39,14 @@ def check_bound(ob: Ob, fn, f, me, line: int, amb_value=None, flags=None) -> Non
         # "binds only non-default flags")
         if op(f) == "attr" and f[1] == me and all(flags.get(x) is False for x in own):
             target, kws = f, {}
-        else:
+        elif op(f) == "attr" and f[1] == me:
+            # a scalar method of the converter handed over bare while a flag may be set: the flag is dropped
             ob.violate(fn.qualname, where(fn, line), f"{fn.name} maps `{show(f)[:60]}` over the column, not the scalar method with strict/passthrough bound", detail="callable-shape")
+            return
+        else:
+            # a callable of the wrapper's own making (a lambda over the tables, a closure from a factory): the
+            # column is not converted THROUGH the scalar method, so nothing proved about that method carries over
+            ob.undecide(f"{fn.name} maps `{show(f)[:60]}` over the column - a callable of its own, not the scalar method with strict/passthrough bound: that it answers cell by cell as the scalar method does is not decided")
             return
     else:
         target, kws = f[1], dict(f[3])
@@ -269,7 +275,25 @@ def d3(cx: Cx, ob: Ob) -> None:
     if not calls:
         ob.undecide("_file_helper never calls the conversion callable")
         return
+    import ast as _ast
+
+    def _rollback_try(line: int):
+        """The try statement around ``line`` whose catch-all handler writes the file back and re-raises."""
+        for n in _ast.walk(fn.node):
+            if not isinstance(n, _ast.Try) or not (n.body and n.body[0].lineno <= line <= (n.body[-1].end_lineno or n.body[-1].lineno)):
+                continue
+            for h in n.handlers:
+                names = [] if h.type is None else [_ast.unparse(x) for x in (h.type.elts if isinstance(h.type, _ast.Tuple) else [h.type])]
+                catch_all = h.type is None or any(x in ("BaseException", "Exception") for x in names)
+                reraises = bool(h.body) and isinstance(h.body[-1], _ast.Raise) and h.body[-1].exc is None
+                restores = any(isinstance(c, _ast.Call) and isinstance(c.func, _ast.Attribute) and c.func.attr in ("write_bytes", "write_text", "write", "replace", "rename", "copyfile", "copy", "move") for st in h.body for c in _ast.walk(st))
+                if catch_all and reraises and restores and len(n.handlers) == 1:
+                    return n
+        return None
+
     for ci, cev, cctx in calls:
+        if cev.cov and _rollback_try(cev.line) is not None:
+            continue  # the only handler re-raises whatever it caught: nothing is swallowed
         if cev.cov:
             ob.violate(
                 fn.qualname,
@@ -293,6 +317,11 @@ def d3(cx: Cx, ob: Ob) -> None:
         seen.add(cev.line)
         ob.site(f"{where(fn, cev.line)} {fn.qualname}", "call of the conversion callable")
         if via_temp:
+            continue
+        if cev.line > wev.line and ci > wi and _rollback_try(cev.line) is not None and _rollback_try(wev.line) is _rollback_try(cev.line):
+            # converting while writing, under a handler that puts the old content back and re-raises: atomic if what
+            # it puts back is the complete original - a property of that handler, not of the order of statements
+            ob.undecide(f"_file_helper converts after the write-open (line {wev.line}) under a catch-all handler that rewrites the file and re-raises: that the handler restores the complete original is not decided")
             continue
         if cev.line > wev.line and ci > wi:
             ob.violate(
